@@ -194,8 +194,8 @@ def report(args, P, results, known, seed, t0):
             continue
         if r.get("kind") == "bounded":
             bounded_res.append(r)
-            for f in r.get("failures", []):
-                violations.append({"obligation": "bounded:%s" % r["name"], "cex": f, "bounded": True})
+            if r.get("failures"):
+                violations.append({"obligation": "bounded:%s" % r["name"], "cex": {"oracle": r["failures"][:5]}, "bounded": True})
             continue
         cid, case_id = r["contract"], r["case"]
         c = engine.REGISTRY[cid]
@@ -277,7 +277,8 @@ def report(args, P, results, known, seed, t0):
         if reproduced is not None:
             doc["failing_input"] = reproduced.get("oracle") if isinstance(reproduced, dict) else reproduced
             doc["replay"] = reproduced.get("replay") if isinstance(reproduced, dict) else None
-            doc["what"] = "counter-model replayed on the real code under CPython: clause is false"
+            doc["what"] = ("bounded stand-in failed on the real code under CPython: concrete witnesses in failing_input"
+                           if v.get("bounded") else "counter-model replayed on the real code under CPython: clause is false")
             line = "VIOLATION property=%s replay=%s" % (prop, os.path.relpath(path, VERIF))
         else:
             doc["solver_output"] = v.get("cex") or v.get("detail")
